@@ -3,6 +3,11 @@ import MidnightZK.Model.C10.Field
 import MidnightZK.Model.C10.Mont
 import MidnightZK.Model.C10.Consts
 import MidnightZK.Gen.C10Constants
+import MidnightZK.Proofs.C10.Limbs
+import MidnightZK.Proofs.C10.Mont
+import MidnightZK.Proofs.C10.Field
+import MidnightZK.Proofs.C10.Prime
+import MidnightZK.Proofs.C10.Codec
 /-!
 # C10 — every exported field type is the field it names
 -/
@@ -101,5 +106,120 @@ theorem bn256_frobenius_coefficients :
     fp2Table Gen.Bn256Fq.MODULUS 4 Gen.Bn256Tower.FROBENIUS_COEFF_FQ6_C2 = frobTable Gen.Bn256Fq.MODULUS (9, 1) 2 3 6 ∧
     fp2Table Gen.Bn256Fq.MODULUS 4 Gen.Bn256Tower.FROBENIUS_COEFF_FQ12_C1 = frobTable Gen.Bn256Fq.MODULUS (9, 1) 1 6 12 := by
   decide +kernel
+
+/-! ## The BLS12-381 scalar modulus is prime -/
+
+/-- `Fq::MODULUS` (the limbs in `bls12_381/fq.rs`) is a prime number: Lucas certificate with
+witness 7 over the complete factorisation of `r - 1`. Primality of the other moduli is not
+proved (their `p - 1` do not factor within reach); theorems needing it carry it as hypothesis. -/
+theorem bls_scalar_prime : Nat.Prime blsFqP := by
+  have : blsFqP = blsR := by decide +kernel
+  rw [this]
+  exact blsR_prime
+
+/-! ## Limb-level Montgomery arithmetic of the pure-Rust paths -/
+
+/-- The parameter sets read from `jubjub/fr.rs` and `bls12_381/fq.rs` satisfy the side conditions
+of the limb theorems: `u64` limbs, `INV·m0 ≡ -1 (mod 2^64)`, `M < 2^255`, `M` odd, and the
+`R2`/`R3` limbs are `R² mod M`, `R³ mod M`. -/
+theorem params_ok :
+    MontOK jubjubParams ∧ MontOK blsFqParams ∧
+    jubjubR2.wf ∧ jubjubR2.val = RR * RR % jubjubParams.m.val ∧
+    jubjubR3.wf ∧ jubjubR3.val = RR * RR * RR % jubjubParams.m.val ∧
+    blsFqR2.wf ∧ blsFqR2.val = RR * RR % blsFqParams.m.val :=
+  ⟨⟨by decide +kernel, by decide +kernel, by decide +kernel, by decide +kernel, by decide +kernel⟩,
+   ⟨by decide +kernel, by decide +kernel, by decide +kernel, by decide +kernel, by decide +kernel⟩,
+   by decide +kernel, by decide +kernel, by decide +kernel, by decide +kernel, by decide +kernel,
+   by decide +kernel⟩
+
+/-- `montgomery_reduce` (`jubjub/fr.rs`, `bls12_381/fq.rs`): for every eight `u64` limbs denoting
+`T < M·2^256` the result `x` has `u64` limbs, `x < M` and `x·2^256 ≡ T (mod M)` — i.e.
+`x = T·R⁻¹ mod M` (`M` odd makes `x` unique, `mont_cancel`). All limb values, any modulus
+satisfying `MontOK`. -/
+theorem montgomery_reduce_spec (p : MontParams) (ok : MontOK p) (r0 r1 r2 r3 r4 r5 r6 r7 : Nat)
+    (h0 : r0 < W) (h1 : r1 < W) (h2 : r2 < W) (h3 : r3 < W) (h4 : r4 < W) (h5 : r5 < W)
+    (h6 : r6 < W) (h7 : r7 < W) (hT : val8 r0 r1 r2 r3 r4 r5 r6 r7 < p.m.val * W ^ 4) :
+    (montReduce p r0 r1 r2 r3 r4 r5 r6 r7).wf ∧ (montReduce p r0 r1 r2 r3 r4 r5 r6 r7).val < p.m.val ∧
+    (montReduce p r0 r1 r2 r3 r4 r5 r6 r7).val * W ^ 4 % p.m.val =
+      val8 r0 r1 r2 r3 r4 r5 r6 r7 % p.m.val :=
+  montReduce_core p r0 r1 r2 r3 r4 r5 r6 r7 ok.wf h0 h1 h2 h3 h4 h5 h6 h7 ok.inv ok.small hT
+
+/-- Non-vacuity: the Jubjub parameters, `T = 1`. -/
+example : (montReduce jubjubParams 1 0 0 0 0 0 0 0).val * W ^ 4 % jubjubParams.m.val = 1 := by
+  decide +kernel
+
+/-- `mul_ref` / `mul_const` / `Mul`: on Montgomery representatives of `x` and `y` the result is the
+Montgomery representative of `x·y`: multiplication agrees with integer multiplication mod `M`. -/
+theorem mul_spec (p : MontParams) (ok : MontOK p) (a b : L4) (x y : Nat)
+    (ha : IsMont p.m.val a x) (hb : IsMont p.m.val b y) : IsMont p.m.val (mulL p a b) (x * y) :=
+  mul_mont p ok a b x y ha hb
+
+/-- `add` on Montgomery representatives is addition mod `M` (the dropped carry is always zero
+because `M < 2^255`). -/
+theorem add_spec (p : MontParams) (ok : MontOK p) (a b : L4) (x y : Nat)
+    (ha : IsMont p.m.val a x) (hb : IsMont p.m.val b y) : IsMont p.m.val (addL p.m a b) (x + y) :=
+  add_mont p ok a b x y ha hb
+
+/-- `sub` / `sub_ref` on canonical limb vectors is subtraction mod `M`; the limbs stay `u64`. -/
+theorem sub_spec (p : MontParams) (ok : MontOK p) (a b : L4) (haw : a.wf) (hbw : b.wf)
+    (ha : a.val < p.m.val) (hb : b.val < p.m.val) :
+    (subL p.m a b).wf ∧ (subL p.m a b).val = (a.val + (p.m.val - b.val)) % p.m.val :=
+  subL_canonical p ok a b haw hbw ha hb
+
+/-- `neg` on a canonical limb vector is negation mod `M` (zero stays zero). -/
+theorem neg_spec (p : MontParams) (ok : MontOK p) (a : L4) (haw : a.wf) (ha : a.val < p.m.val) :
+    (negL p.m a).wf ∧ (negL p.m a).val = (p.m.val - a.val) % p.m.val :=
+  negL_canonical p ok a haw ha
+
+/-- Non-vacuity of the canonical-operand hypotheses (Jubjub: `1 - 2 = r - 1`). -/
+example : (subL jubjubParams.m ⟨1, 0, 0, 0⟩ ⟨2, 0, 0, 0⟩).val = jubjubParams.m.val - 1 := by decide +kernel
+
+/-- `from_raw` and the conversion inside `from_bytes` (`val * R2`): the Montgomery representative
+of `val`, for every 256-bit `val` (also non-canonical). -/
+theorem from_raw_spec (p : MontParams) (ok : MontOK p) (r2 a : L4) (haw : a.wf) (hr2w : r2.wf)
+    (hr2 : r2.val = RR * RR % p.m.val) : IsMont p.m.val (mulL p a r2) a.val :=
+  fromRaw_mont p ok r2 a haw hr2w hr2
+
+/-- `from_u512` / `from_bytes_wide` (`jubjub/fr.rs`; the same `a0·R2 + a1·R3` scheme is used by
+`Fq::from_uniform_bytes` through blst): the result is the Montgomery representative of the
+512-bit integer `d0 + d1·2^256`, i.e. uniform bytes are reduced modulo `M`. -/
+theorem from_u512_spec (p : MontParams) (ok : MontOK p) (r2 r3 d0 d1 : L4) (h0 : d0.wf) (h1 : d1.wf)
+    (hr2w : r2.wf) (hr3w : r3.wf) (hr2 : r2.val = RR * RR % p.m.val)
+    (hr3 : r3.val = RR * RR * RR % p.m.val) :
+    IsMont p.m.val (fromU512L p r2 r3 d0 d1) (d0.val + d1.val * RR) :=
+  fromU512_mont p ok r2 r3 d0 d1 h0 h1 hr2w hr3w hr2 hr3
+
+/-- `to_bytes`/`to_repr` of a Montgomery representative of `x` yields `x mod M`, and
+`to_repr(from_repr(v)) = v` for canonical `v`: the canonical codec round-trips. -/
+theorem repr_roundtrip (p : MontParams) (ok : MontOK p) (r2 a : L4) (haw : a.wf) (hr2w : r2.wf)
+    (hr2 : r2.val = RR * RR % p.m.val) (ha : a.val < p.m.val) :
+    (toCanonL p (mulL p a r2)).val = a.val ∧
+    ∀ x, IsMont p.m.val a x → (toCanonL p a).val = x % p.m.val :=
+  ⟨canonical_roundtrip p ok r2 a haw hr2w hr2 ha, fun x hx => (toCanon_mont p ok a x hx).2⟩
+
+/-- `jubjub::Fr::from_bytes` / `curve25519::Fp::from_repr`: the `is_some` flag (borrow of the trial
+subtraction) is set exactly for encodings below the modulus — every non-canonical encoding is
+rejected, every canonical one accepted. -/
+theorem from_repr_rejects_noncanonical (m a : L4) (hm : m.wf) (ha : a.wf) :
+    (a.val < m.val → ltModBorrow m a = 1) ∧ (m.val ≤ a.val → ltModBorrow m a = 0) :=
+  ltModBorrow_spec m a hm ha
+
+/-- `Fq/Fp::from_raw_bytes` after the D3 fix and `from_repr_vartime`/`from_u64s_le`
+(`is_valid`, `is_valid_u64`, byte-wise `is_valid`): the most-significant-first scan accepts
+exactly the digit vectors denoting a number below the modulus (any radix `B`, any length). -/
+theorem from_raw_bytes_rejects_noncanonical (B : Nat) (a m : List Nat) (hlen : a.length = m.length)
+    (ha : ∀ x ∈ a, x < B) (hm : ∀ x ∈ m, x < B) :
+    isValidMsf a m = true ↔ msfVal B a < msfVal B m :=
+  isValidMsf_iff B a m hlen ha hm
+
+/-- D3 regression: the limbs of `p` itself and the all-ones limbs are rejected, `p - 1` accepted. -/
+example : isValid Gen.BlsFq.MODULUS Gen.BlsFq.MODULUS = false ∧
+    isValid [W - 1, W - 1, W - 1, W - 1] Gen.BlsFq.MODULUS = false ∧
+    isValid [Gen.BlsFq.MODULUS[0]! - 1, Gen.BlsFq.MODULUS[1]!, Gen.BlsFq.MODULUS[2]!, Gen.BlsFq.MODULUS[3]!]
+      Gen.BlsFq.MODULUS = true := by decide +kernel
+
+/-- `jubjub::Fr::invert`: the addition chain parsed from the source computes the exponent
+`r - 2` (Fermat inversion). -/
+theorem jubjub_invert_chain_exponent : jubjubInvertExponent = jubjubFrP - 2 := by decide +kernel
 
 end MidnightZK.C10
